@@ -38,6 +38,9 @@ LEAF = {
     'K7:CASE expression': 'SELECT CASE WHEN a THEN 1 ELSE 2 END ;',
     'K7n:nested CASE expression': 'SELECT CASE WHEN a THEN CASE WHEN b THEN 1 END ELSE 2 END ;',
     'K10:cursor FOR': 'DECLARE c CURSOR FOR SELECT 1 ;',
+    'K11:DROP statement in body': 'DROP TABLE t ;',
+    'K12:ALTER/TRUNCATE statements in body': 'ALTER TABLE t ADD c int ; TRUNCATE TABLE t ;',
+    'K13:INSERT ... SELECT in body': 'INSERT INTO t SELECT a FROM u WHERE a IN ( 1 , 2 ) ;',
 }
 PRE = 'SELECT 0 ;! CREATE_OR_REPLACE PROCEDURE p ( ) '
 POST = ' END ;! SELECT 9 ;!'
@@ -159,14 +162,28 @@ def check_protocol(ctx, V):
             tr = simulate(ctx, V, script, f, init)
             return judge(tr)
         except ME.Unsupported as e:
+            if 'of abstract object' in str(e):
+                return f'evaluation fails: {e} (state attribute not initialised by _reset)'
             ctx.ob('R17.3', f'skeleton:{name}', loc, f'skeleton {name} evaluable on the extracted table', None, str(e))
             return 'undetermined'
         except (ME.Unknown, ME.Crash) as e:
             return f'evaluation fails: {e}'
     # plain statements outside CREATE must split at every ";"
-    tr = simulate(ctx, V, 'SELECT 1 ;! BEGIN ;! SELECT 2 ;! END ;! SELECT ( 3 ) ;!', f, init)
-    bad = judge(tr)
-    ctx.ob('R17.3', 'skeleton:plain statements', loc, 'plain statements (incl. transaction BEGIN/END) split at every top-level ";"', bad is None, bad or '')
+    plain = {
+        'plain statements': 'SELECT 1 ;! BEGIN ;! SELECT 2 ;! END ;! SELECT ( 3 ) ;!',
+        'CREATE TABLE IF NOT EXISTS': 'CREATE TABLE IF NOT EXISTS t ( a int ) ;! SELECT 1 ;! DROP TABLE IF EXISTS t ;! SELECT 2 ;!',
+        'CREATE VIEW with CASE expression': 'CREATE_OR_REPLACE VIEW v AS SELECT CASE WHEN a THEN 1 ELSE 2 END FROM t ;! SELECT 2 ;!',
+        'CREATE INDEX ... FOR / WHILE words': 'CREATE TABLE t ( a int ) ;! SELECT 1 FOR UPDATE ;! SELECT 2 ;!',
+    }
+    for name, script in plain.items():
+        try:
+            bad = judge(simulate(ctx, V, script, f, init))
+        except ME.Unsupported as e:
+            ctx.ob('R17.3', f'skeleton:{name}', loc, 'skeleton evaluable on the extracted table', None, str(e))
+            continue
+        except (ME.Unknown, ME.Crash) as e:
+            bad = f'evaluation fails: {e}'
+        ctx.ob('R17.3', f'skeleton:{name}', loc, f'{name}: every statement ends at its own top-level ";"', bad is None, bad or '')
     singles = {}
     for name, body in list(BODY.items()):
         singles[name] = run_one(name, body.format(''))
